@@ -180,7 +180,7 @@ class Path:
         return d
 
     # ---- obligations
-    def prove(self, name, goal, detail=""):
+    def prove(self, name, goal, detail="", assume=True):
         """Record obligation `name`: pc => goal. Continues assuming the goal."""
         if isinstance(goal, bool):
             goal = z3.BoolVal(goal)
@@ -238,6 +238,8 @@ class Path:
         else:
             self.results.record(Ob(name, "unknown", detail + " reason=" + reason, ms=ms))
             ok = False
+        if not assume:
+            return ok
         # continue under the goal (standard: assert-then-assume)
         try:
             self.assume(g, check=True)
